@@ -63,6 +63,21 @@ Example C17_nonvacuous :
   map (fun e => fst (fst e)) (sel_entries keep false [] t) = [[]; [[97]]; [[101]]].
 Proof. vm_compute. reflexivity. Qed.
 
+(* the `is_dir` flag the filter hands to the matcher is the type of the entry AS WALKED: without --dereference a symbolic link
+   is never a directory for it, whatever it designates (git: a pattern `name/` matches a directory, never a symbolic link);
+   with --dereference a link that resolves to a directory is walked, and filtered, as that directory (defect e0053b4) *)
+Theorem C17_link_is_not_a_directory_for_the_filter : forall text res, tree_is_dir false (TLink text res) = false.
+Proof. intros text [| |[len|cs|t r|ft|ft]]; reflexivity. Qed.
+Theorem C17_followed_link_is_what_it_resolves_to : forall text res,
+  tree_is_dir true (TLink text res) = match res with LTarget (TDir _) => true | _ => false end.
+Proof. intros text [| |[len|cs|t r|ft|ft]]; reflexivity. Qed.
+
+(* ... and the source asks the matcher exactly that: the walked entry's path and the walked entry's type; only the root passes unasked *)
+Theorem C17_src_filter_asks_about_the_entry_as_walked :
+  x_ignore_filter_query = ("entry.path()", "entry.file_type().is_dir()")%string /\
+  x_ignore_filter_unasked = ["entry.depth()==0"]%string.
+Proof. split; reflexivity. Qed.
+
 (* ---- tie to the current source (translator): the matcher is built per source and prunes the walk ---- *)
 Theorem C17_src_filter_and_per_source_matcher :
   nth 4 x_walker_iterator ""%string = "filter_entry(|e|ignore_filter(e,&gitignore))"%string /\
@@ -106,3 +121,6 @@ From XcpPins Require Import Pin_operations_tree_walker.
 Theorem C17_src_pin_operations_tree_walker : pin_unchanged name_operations_tree_walker.
 Proof. exact pin_operations_tree_walker. Qed.
 Print Assumptions C17_src_pin_operations_tree_walker.
+Print Assumptions C17_link_is_not_a_directory_for_the_filter.
+Print Assumptions C17_followed_link_is_what_it_resolves_to.
+Print Assumptions C17_src_filter_asks_about_the_entry_as_walked.
